@@ -1163,7 +1163,9 @@ impl<'a> Runner<'a> {
               }
               // Order: no scheduled task that t (transitively) requires may still be waiting.
               for (q, _) in pending.iter() {
-                if !mid_seen && q != t && ledger_path(&self.ledger, &old, *t, *q) { order_candidates.push((*t, *q)); }
+                // (previous records only of tasks that are executing right now: a completed re-execution has replaced its record)
+                let old_live: Vec<Option<ExecRec>> = (0..ntasks).map(|x| if exec_stack.contains(&x) { old[x].clone() } else { None }).collect();
+                if !mid_seen && q != t && ledger_path(&self.ledger, &old_live, *t, *q) { order_candidates.push((*t, *q)); }
               }
             } else {
               let p = &pass[*t];
@@ -1263,7 +1265,8 @@ impl<'a> Runner<'a> {
                 // Reuse during a bottom-up build: nothing scheduled may be reachable from u.
                 for (q, _) in pending.iter() {
                   if mid_seen { break; }
-                  if *q == u || ledger_path(&self.ledger, &old, u, *q) {
+                  let old_live: Vec<Option<ExecRec>> = (0..ntasks).map(|x| if exec_stack.contains(&x) { old[x].clone() } else { None }).collect();
+                  if *q == u || ledger_path(&self.ledger, &old_live, u, *q) {
                     v(&["C03"], "bu-stale-reuse", format!("task {t} required task {u} during a bottom-up build and got its cached output although task {q}, which {u} (transitively) requires, was still scheduled"));
                     break;
                   }
